@@ -831,3 +831,130 @@ def spec_orders_immutable(src_root):
     if bad:
         raise Unknown('; '.join(bad[:4]))
     return True
+
+
+# ---------------------------------------------------------------- invoke_exception_view -> the key of an exception-view lookup
+TRANSLATED.append('pyramid/view.py:ViewMethodsMixin.invoke_exception_view')
+
+
+def excview_key(fn):
+    """ViewMethodsMixin.invoke_exception_view -> {'combined': bool}: which key the exception-view lookup is made with.
+    Fail closed: exactly one _call_view call with (registry, request, exc, context_iface, '') and view_types=None,
+    view_classifier=IExceptionViewClassifier, secure=secure, request_iface=<X> or <X>.combined, where X is bound exactly
+    once from the request's own attribute (attrs.get('request_iface', IRequest) with attrs = request.__dict__, or
+    getattr(request, 'request_iface', IRequest)), context_iface = providedBy(exc) and exc = exc_info[1] are bound
+    exactly once, `request` is only rebound by the `if request is None: request = self` default, and hide_attrs does
+    not hide request_iface."""
+    if u(fn.args) != 'self, exc_info=None, request=None, secure=True, reraise=False' or fn.decorator_list:
+        raise Unknown('signature of invoke_exception_view: (%s)' % u(fn.args))
+    calls = [c for c in ast.walk(fn) if isinstance(c, ast.Call) and u(c.func) == '_call_view']
+    if len(calls) != 1:
+        raise Unknown('invoke_exception_view calls _call_view %d times' % len(calls))
+    c = calls[0]
+    if [u(a) for a in c.args] != ['registry', 'request', 'exc', 'context_iface', "''"]:
+        raise Unknown('positional arguments of the exception-view lookup: %s' % [u(a) for a in c.args])
+    kw = {k.arg: k.value for k in c.keywords}
+    if set(kw) != {'view_types', 'view_classifier', 'secure', 'request_iface'} or u(kw['view_types']) != 'None' \
+            or u(kw['view_classifier']) != 'IExceptionViewClassifier' or u(kw['secure']) != 'secure':
+        raise Unknown('keyword arguments of the exception-view lookup: %s' % {k: u(v) for k, v in kw.items()})
+    ri = kw['request_iface']
+    combined = False
+    if isinstance(ri, ast.Attribute) and ri.attr == 'combined' and isinstance(ri.value, ast.Name):
+        combined, var = True, ri.value.id
+    elif isinstance(ri, ast.Name):
+        var = ri.id
+    else:
+        raise Unknown('request_iface of the exception-view lookup: %s' % u(ri))
+
+    def bindings(name):
+        out = []
+        for n in ast.walk(fn):
+            if isinstance(n, ast.Assign):
+                for t in n.targets:
+                    for x in ast.walk(t):
+                        if isinstance(x, ast.Name) and x.id == name and isinstance(x.ctx, ast.Store):
+                            out.append(u(n.value) if isinstance(t, ast.Name) else '<destructured>')
+            elif isinstance(n, (ast.AugAssign, ast.AnnAssign, ast.NamedExpr)) and any(
+                    isinstance(x, ast.Name) and x.id == name and isinstance(x.ctx, ast.Store) for x in ast.walk(n)):
+                out.append('<other>')
+            elif isinstance(n, (ast.For, ast.With, ast.ExceptHandler)):
+                tg = [n.target] if isinstance(n, ast.For) else \
+                    [i.optional_vars for i in n.items if i.optional_vars is not None] if isinstance(n, ast.With) else []
+                for t in tg:
+                    if any(isinstance(x, ast.Name) and x.id == name and isinstance(x.ctx, ast.Store) for x in ast.walk(t)):
+                        out.append('<loop/with>')
+                if isinstance(n, ast.ExceptHandler) and n.name == name:
+                    out.append('<except>')
+        return out
+    src_ok = ("attrs.get('request_iface', IRequest)", "getattr(request, 'request_iface', IRequest)")
+    b = bindings(var)
+    if len(b) != 1 or b[0] not in src_ok:
+        raise Unknown('the request type of the exception-view lookup is bound as %s' % b)
+    if b[0].startswith('attrs') and bindings('attrs') != ['request.__dict__']:
+        raise Unknown('attrs is bound as %s' % bindings('attrs'))
+    if bindings('context_iface') != ['providedBy(exc)']:
+        raise Unknown('context_iface is bound as %s' % bindings('context_iface'))
+    if bindings('exc') != ['exc_info[1]']:
+        raise Unknown('exc is bound as %s' % bindings('exc'))
+    if bindings('request') != ['self']:
+        raise Unknown('request is bound as %s' % bindings('request'))
+    if not any(isinstance(n, ast.If) and u(n.test) == 'request is None' and [u(x) for x in n.body] == ['request = self']
+               and not n.orelse for n in ast.walk(fn)):
+        raise Unknown('the default `if request is None: request = self` is missing')
+    for n in ast.walk(fn):
+        if isinstance(n, ast.Call) and u(n.func).split('.')[-1] == 'hide_attrs':
+            if any(isinstance(a, ast.Constant) and a.value == 'request_iface' for a in n.args) or \
+                    any(isinstance(a, ast.Starred) for a in n.args):
+                raise Unknown('hide_attrs hides request_iface')
+        if isinstance(n, ast.Constant) and n.value == 'request_iface':
+            pass
+        if isinstance(n, (ast.Subscript, ast.Attribute)) and not isinstance(n.ctx, ast.Load) and \
+                ((isinstance(n, ast.Attribute) and n.attr == 'request_iface') or
+                 (isinstance(n, ast.Subscript) and isinstance(n.slice, ast.Constant) and n.slice.value == 'request_iface')):
+            raise Unknown('invoke_exception_view stores request_iface (line %d)' % n.lineno)
+    return {'combined': combined}
+
+
+# ---------------------------------------------------------------- add_route.register_route_request_iface
+TRANSLATED.append('pyramid/config/routes.py:RoutesConfiguratorMixin.add_route.register_route_request_iface')
+
+
+def route_iface_once(fn):
+    """the action that gives a route its request interface: the interface registered under the route's name is looked
+    up; ONLY when there is none a new one is made (route_request_iface(name, bases)) and registered.  An existing
+    interface is left alone (no else/elif branch, nothing after the if).  Locals and the way `bases` is computed are
+    free.  -> True, or Unknown"""
+    if u(fn.args) != '' or fn.decorator_list:
+        raise Unknown('signature of register_route_request_iface: (%s)' % u(fn.args))
+    body = _strip_doc(fn.body)
+    if len(body) != 2:
+        raise Unknown('register_route_request_iface has %d statements' % len(body))
+    a, i = body
+    if not (isinstance(a, ast.Assign) and len(a.targets) == 1 and isinstance(a.targets[0], ast.Name)
+            and u(a.value) == 'self.registry.queryUtility(IRouteRequest, name=name)'):
+        raise Unknown('register_route_request_iface: %s' % u(a)[:80])
+    var = a.targets[0].id
+    if not (isinstance(i, ast.If) and u(i.test) == '%s is None' % var and not i.orelse):
+        raise Unknown('register_route_request_iface: the interface is not created only when there is none: %s'
+                      % u(i).split('\n')[0][:80])
+    made = registered = 0
+    for n in ast.walk(i):
+        if isinstance(n, ast.Call):
+            f = u(n.func)
+            if f == 'route_request_iface':
+                made += 1
+                if not n.args or u(n.args[0]) != 'name':
+                    raise Unknown('route_request_iface called with %s' % [u(x) for x in n.args])
+            elif f == 'self.registry.registerUtility':
+                registered += 1
+                if [u(x) for x in n.args] != [var, 'IRouteRequest'] or {k.arg: u(k.value) for k in n.keywords} != {'name': 'name'}:
+                    raise Unknown('registerUtility called with %s' % u(n))
+            else:
+                raise Unknown('register_route_request_iface calls %s' % f)
+        if isinstance(n, (ast.Attribute, ast.Subscript)) and not isinstance(n.ctx, ast.Load):
+            raise Unknown('register_route_request_iface stores through %s' % u(n))
+        if isinstance(n, (ast.Return, ast.Raise, ast.Global, ast.Nonlocal, ast.Delete)):
+            raise Unknown('register_route_request_iface: %s' % type(n).__name__)
+    if made != 1 or registered != 1:
+        raise Unknown('register_route_request_iface makes %d / registers %d interfaces' % (made, registered))
+    return True
